@@ -1779,6 +1779,80 @@ class CopyAnalysis:
         self.censuses.append(cen)
 
 
+    def state_census(self, cname: str, label: str, cache_ann: tuple[str, ...] = ('Optional[Pattern[str]]',)) -> Census:
+        """A pickle round trip of a class whose `__getstate__` returns ONE value built from self and whose `__setstate__`
+        rebuilds the fields from it (EntityFixup: `list(self._fixup.values())` / a dict comprehension over the state).
+        pickle serialises the state, so every object below it comes back NEW: a field that `__setstate__` builds from ALL
+        elements of the state, when the state holds the whole of that field, has the row HDeep from that field; a filtered
+        or sliced comprehension, a constant, or a state that holds only part of the field gives HMissing
+        (`copy_covers_fields:<label>` names it).  A cache field (annotation in `cache_ann`) reset to a constant follows
+        the convention of the constructor path (`EntityFixup_copy_values`): rebuilt lazily, row HShare.
+        Anything else fails closed."""
+        info = self.classes[cname]
+        cls = info.node
+        gs = normalise_fn(_method(cls, '__getstate__'), self.tree, cls)
+        ss = normalise_fn(_method(cls, '__setstate__'), self.tree, cls)
+        if len(gs.args.args) != 1 or len(ss.args.args) != 2 or ss.args.vararg or ss.args.kwarg or gs.args.vararg or gs.args.kwarg:
+            raise TranslateError(f'{label}: unexpected signature of __getstate__/__setstate__')
+        defined = {n.name for n in cls.body if isinstance(n, (ast.FunctionDef, ast.AsyncFunctionDef))}
+        other = {'__reduce__', '__reduce_ex__', '__getnewargs__', '__getnewargs_ex__', '__new__', '__setattr__', '__getattribute__'} & defined
+        if other:
+            raise TranslateError(f'{label}: {cname} also defines {sorted(other)}')
+        body = [st for st in gs.body if not (isinstance(st, ast.Expr) and isinstance(st.value, ast.Constant))]
+        if len(body) != 1 or not isinstance(body[0], ast.Return) or body[0].value is None:
+            raise TranslateError(f'{label}: __getstate__ is not a single `return <expr>`')
+        state_expr = body[0].value
+        saved, self.src_class = self.src_class, cname
+        self.join_parts, self.joined = None, False
+        held = self.classify(state_expr, 'self', {}, set(), label)
+        if self.join_parts is not None:
+            raise TranslateError(f'{label}: conditional state `{ast.unparse(state_expr)[:60]}`')
+        self.src_class = saved
+        reads = src_reads(state_expr, 'self', {}, info)
+        whole = held in ('share', 'share-elems', 'shallow', 'copycall', 'deep', 'deep-ctor', 'deep-flat') and len(reads) == 1
+        sname = ss.args.args[1].arg
+        cen = Census(label, info, self)
+        cen.builder = 'protocol'
+        for st in ss.body:
+            if isinstance(st, ast.Expr) and isinstance(st.value, ast.Constant) or isinstance(st, ast.Pass):
+                continue
+            f = _self_attr(st.targets[0]) if isinstance(st, ast.Assign) and len(st.targets) == 1 else \
+                (_self_attr(st.target) if isinstance(st, ast.AnnAssign) and st.value is not None else None)
+            v = st.value if isinstance(st, (ast.Assign, ast.AnnAssign)) else None
+            if f is None or v is None or f not in info.fields or f in cen.how:
+                raise TranslateError(f'{label}: unrecognised statement `{ast.unparse(st)[:60]}` in __setstate__')
+            if isinstance(v, ast.Constant) or ast.unparse(v) in ('{}', '[]', 'set()', 'dict()', 'list()'):
+                if info.ann.get(f) in cache_ann and isinstance(v, ast.Constant) and v.value is None:
+                    cen.set(f, 'HShare', f'reset to None by __setstate__ (cache, rebuilt lazily)', [f])
+                else:
+                    cen.set(f, 'HMissing', f'constant {ast.unparse(v)} in __setstate__', [], [])
+                continue
+            # what of the state reaches the field: all of its elements, or part
+            all_elems: Optional[bool] = None
+            if isinstance(v, ast.Name) and v.id == sname:
+                all_elems = True
+            elif isinstance(v, ast.Call) and isinstance(v.func, ast.Name) and v.func.id in ('list', 'dict', 'set') \
+                    and len(v.args) == 1 and not v.keywords and isinstance(v.args[0], ast.Name) and v.args[0].id == sname:
+                all_elems = True
+            elif isinstance(v, (ast.ListComp, ast.SetComp, ast.DictComp)) and len(v.generators) == 1:
+                g = v.generators[0]
+                elt = v.value if isinstance(v, ast.DictComp) else v.elt
+                if isinstance(g.iter, ast.Name) and g.iter.id == sname and isinstance(g.target, ast.Name) \
+                        and isinstance(elt, ast.Name) and elt.id == g.target.id and not g.is_async:
+                    all_elems = not g.ifs            # a filter drops elements
+                    if isinstance(v, ast.DictComp) and not any(isinstance(n, ast.Name) and n.id == g.target.id for n in ast.walk(v.key)):
+                        all_elems = False           # a key that does not depend on the element: entries overwrite each other
+            if all_elems is None:
+                raise TranslateError(f'{label}: unrecognised value `{ast.unparse(v)[:60]}` for {f} in __setstate__')
+            if all_elems and whole:
+                cen.set(f, 'HDeep', f'pickle of {ast.unparse(state_expr)} -> {ast.unparse(v)[:70]}', reads, [(reads[0], 'ident')])
+            else:
+                cen.set(f, 'HMissing', f'only part of the field survives: state {ast.unparse(state_expr)[:50]} ({held}) -> {ast.unparse(v)[:50]}',
+                        reads, [(r, 'derived') for r in reads])
+        self.censuses.append(cen)
+        return cen
+
+
     def protocol_census(self, cname: str, label: str, which: str) -> Census:
         """`copy.deepcopy(x)` / a pickle round trip of a class that customises NOTHING of the copy protocol: CPython's
         generic protocol (copyreg.__reduce_ex__: a new object of the same class, every slot set to a deep copy /
@@ -2187,6 +2261,7 @@ def translate() -> tuple[str, dict]:
         an.method_census(c)
     an.method_census('EntityFixup', '__copy__', 'EntityFixup_copy')
     an.method_census('EntityFixup', '__deepcopy__', 'EntityFixup_deepcopy')
+    an.state_census('EntityFixup', 'EntityFixup_pickle')
     kan = CopyAnalysis(ktree, {'Keyvalues': kv_info})
     kan.method_census('Keyvalues')
     kan.protocol_census('Keyvalues', 'Keyvalues_deepcopy', 'deepcopy')
